@@ -167,6 +167,10 @@ pub struct Model<'a, S: Source> {
     /// first realises the same law. The harness probes which order the code uses and runs the model
     /// in that order (see c15.rs `probe_sign_order`).
     pub sign_first: bool,
+    /// The order of the two independent draws may legitimately depend on the SCALE (e.g. sign first for
+    /// integral scales, magnitude first otherwise). If set, the order is probed per scale on the real code
+    /// (cached) instead of using the single global `sign_first`.
+    pub sign_probe: Option<fn(&Q) -> bool>,
     /// Algorithm 3 proposes from Laplace(t) with t = floor(sigma)+1, but its output law is the
     /// discrete Gaussian for ANY fixed t > 0 as long as the acceptance exponent uses the same t
     /// (e^{-|y|/t} * e^{-(|y| - sigma^2/t)^2/(2 sigma^2)} is proportional to e^{-y^2/(2 sigma^2)}).
@@ -181,7 +185,7 @@ pub struct Model<'a, S: Source> {
 
 impl<'a, S: Source> Model<'a, S> {
     pub fn new(src: &'a mut S, sign_first: bool) -> Self {
-        Model { src, trace: Vec::new(), record: true, sign_first, gauss_t: None, steps: 0, cap: 2_000_000, elide_certain: true }
+        Model { src, trace: Vec::new(), record: true, sign_first, sign_probe: None, gauss_t: None, steps: 0, cap: 2_000_000, elide_certain: true }
     }
 
     fn enter(&mut self, layer: Layer, arg: &Q) -> Result<Option<Outcome>, Stop> {
@@ -318,7 +322,11 @@ impl<'a, S: Source> Model<'a, S> {
         let gamma = Q::new(scale.denom().clone(), scale.numer().clone());
         let half = q(1, 2);
         loop {
-            let (b, y) = if self.sign_first {
+            let sign_first = match self.sign_probe {
+                Some(f) => f(scale),
+                None => self.sign_first,
+            };
+            let (b, y) = if sign_first {
                 let b = self.bernoulli(&half)?;
                 let y = self.geometric(&gamma)?;
                 (b, y)
